@@ -236,7 +236,15 @@ Proof.
   - apply frame_cancel; assumption.
   - apply frame_resume_cancelled; assumption.
   - apply frame_resume_read_fail; assumption.
+  - unfold close. simpl. apply frame_crash. exact H.
+  - unfold close_ok. pose proof (frame_persist_ok t s1 s H) as Hp.
+    destruct (persist_ok s1) as [p1|]; destruct (persist_ok s) as [p|]; simpl in Hp; try exact Hp.
+    simpl. apply frame_crash. exact Hp.
 Qed.
+
+(* a graceful shutdown names no request: it is framed like a crash, whoever [t] is *)
+Lemma frame_close : forall t s1 s a, a = AClose \/ a = ACloseOk -> frel t s1 s -> orel t (step s1 a) (step s a).
+Proof. intros t s1 s a [Ha|Ha] H; subst a; apply frame_step; [exact H|exact I|exact H|exact I]. Qed.
 
 Lemma frame_run : forall t acts s1 s, frel t s1 s -> Forall (avoids t) acts -> orel t (run s1 acts) (run s acts).
 Proof.
